@@ -1,0 +1,9 @@
+//go:build verif
+
+package bft
+
+// This file is only compiled with `-tags verif`. The simulation harness in /verif drives the
+// controller's block pipeline without running consensus rounds; it uses this setter to put a node
+// into the state "inside the approve-list voting window of the current round", which the running
+// engine reaches by itself at the start of every round.
+func (b *BFT) VerifSetProposalVoteDeadline(unixMilli int64) { b.deadlineMs.Store(unixMilli) }
